@@ -92,8 +92,8 @@ CHECKS["C15"] = {
     "units": [
         unit("./internal", CORE_FILES, "^Harness_C15_Reverse_n[1-4]$", QT, flags={"labels": "^C15:"}),
         unit("./internal", CORE_FILES, "^Harness_C15_Reverse_n[56]$", T, flags={"labels": "^C15:"}),
-        unit("./internal/controller/ledger", ["ctrl/dbmodel.go", "ctrl/lib.go", "ctrl/c25.go", "ctrl/ops.go", "ctrl/ops_gen.go", "ctrl/revert.go", "ctrl/revert_gen.go", "ctrl/refreplay.go", "ctrl/events.go", "ctrl/events_gen.go"], "^Harness_REVC_", QT, flags={"labels": "^C15:", "max-decisions": 4000}, reach=["end"]),
-        unit("./internal/controller/ledger", ["ctrl/dbmodel.go", "ctrl/lib.go", "ctrl/c25.go", "ctrl/ops.go", "ctrl/ops_gen.go", "ctrl/revert.go", "ctrl/revert_gen.go", "ctrl/refreplay.go", "ctrl/events.go", "ctrl/events_gen.go"], "^Harness_REVS_", QT, flags={"labels": "^C15:", "max-decisions": 4000}, reach=["end"]),
+        unit("./internal/controller/ledger", ["ctrl/dbmodel.go", "ctrl/lib.go", "ctrl/c25.go", "ctrl/ops.go", "ctrl/ops_gen.go", "ctrl/revert.go", "ctrl/revert_gen.go", "ctrl/refreplay.go", "ctrl/events.go", "ctrl/events_gen.go", "ctrl/c36.go"], "^Harness_REVC_", QT, flags={"labels": "^C15:", "max-decisions": 4000}, reach=["end"]),
+        unit("./internal/controller/ledger", ["ctrl/dbmodel.go", "ctrl/lib.go", "ctrl/c25.go", "ctrl/ops.go", "ctrl/ops_gen.go", "ctrl/revert.go", "ctrl/revert_gen.go", "ctrl/refreplay.go", "ctrl/events.go", "ctrl/events_gen.go", "ctrl/c36.go"], "^Harness_REVS_", QT, flags={"labels": "^C15:", "max-decisions": 4000}, reach=["end"]),
     ],
 }
 
@@ -115,7 +115,7 @@ CHECKS["C03"] = {
     ],
 }
 
-CTRL_FILES = ["ctrl/dbmodel.go", "ctrl/lib.go", "ctrl/c25.go", "ctrl/ops.go", "ctrl/ops_gen.go", "ctrl/revert.go", "ctrl/revert_gen.go", "ctrl/refreplay.go", "ctrl/events.go", "ctrl/events_gen.go"]
+CTRL_FILES = ["ctrl/dbmodel.go", "ctrl/lib.go", "ctrl/c25.go", "ctrl/ops.go", "ctrl/ops_gen.go", "ctrl/revert.go", "ctrl/revert_gen.go", "ctrl/refreplay.go", "ctrl/events.go", "ctrl/events_gen.go", "ctrl/c36.go"]
 CTRL_PKG = "./internal/controller/ledger"
 DBMODEL_ASSUME = [
     "dbmodel (harness/ctrl/dbmodel.go) stands for the SQL store below the controller's Store interface: tables as Go values, transactional write sets applied on Commit and dropped on Rollback, autocommit on a non-transactional handle, unique keys (ledger,id), (ledger,reference), (ledger,idempotency_key), (ledger,address), non-transactional sequences, 'a failed statement aborts the transaction', transaction_date() constant inside a transaction. It is trusted, not verified (no PostgreSQL in the sandbox)",
@@ -220,3 +220,31 @@ CHECKS["C31"]["units"] += [
     unit("./internal/api/bulking", ["bulk/c32.go"], "^Harness_BULK_n3", QT, extra=BULK_EXTRA, flags={"labels": "^C31:", "max-decisions": 6000}, reach=["end"]),
 ]
 CHECKS["C31"]["explanation"] += " Bulk cases: the real Bulker (atomic and non-atomic, every assignment of succeeding/failing element kinds to <= 3 positions) on the same stack: one callback per committed element, none for a rolled-back atomic bulk, atomic-bulk callbacks only after the bulk's commit."
+
+
+CHECKS["C36"] = {
+    "level": "other",
+    "explanation": "(a) A monetary script variable given as a JSON number n (an unbounded symbolic integer >= 0) is decoded by the real json.Unmarshal into the real ScriptV1 (v2 API, bulk) resp. v1 Script and converted by the real ToCore: z3 decides that the string handed to the machine is exactly \"<asset> n\" — the float64/int() path is encoded with IEEE-754 semantics, so a rounding is a counterexample; the same for an amount given as a string of digits. (b) An amount a (unbounded symbolic integer, plus the concrete magnitudes 2^53+1, 2^63, 2^64+1, 10^30, a 39-digit number, 0) travels through TxToScriptData, the compiler, the VM, CommitTransaction: recorded posting, volumes, balances, post-commit volumes and the log payload equal a exactly, sums/differences are exact, and a request for one unit more than the balance is refused.",
+    "bounds": {"quick": "n, a unbounded (no width bound: big.Int is a mathematical integer in the encoding); float64 conversions through bit-vectors for |n| < 2^70 and reals beyond", "thorough": "same"},
+    "outside": "PostgreSQL numeric arithmetic and column types, the bun/pgx transport and the HTTP JSON encoders are not encoded; SQL aggregation and filtering of amounts (balance filters) are not covered; JSON numbers written with a fraction or an exponent",
+    "assumptions": COMMON_ASSUME + DBMODEL_ASSUME,
+    "units": [
+        unit(CTRL_PKG, CTRL_FILES, "^Harness_C36_amount_", QT, flags={"labels": "^(C36:|no-panic)", "max-decisions": 4000}, reach=["end"]),
+        unit("./internal/machine/vm", ["vm/c36.go"], "^Harness_C36_", QT, libs=["jsongen"], flags={"labels": "^(C36:|no-panic)"}, reach=["end"]),
+        unit("./internal/api/v1", ["apiv1/c38.go"], "^Harness_C36_", QT, libs=["jsongen"], flags={"labels": "^(C36:|no-panic)"}, reach=["end"]),
+    ],
+}
+CHECKS["C38"] = {
+    "level": "other",
+    "explanation": "Request-decoding kernels, executed symbolically with a bounded arbitrary JSON value (shape explored exhaustively; integer and string leaves symbolic) substituted for one field at a time of an otherwise valid request (type confusion on every field): v2/bulk ScriptV1 (UnmarshalJSON + ToCore), v1 Script.ToCore, the bulk element decoder (BulkElement.UnmarshalJSON, UnmarshalBulkElementPayload) followed by the real Bulker.processElement on the real controller over the store model, and the import-stream decoder (Log.UnmarshalJSON, LogType.UnmarshalJSON, HydrateLog, SavedMetadata/DeletedMetadata.UnmarshalJSON). Decided: no reachable panic; a bulk element that is refused leaves the committed state unchanged; a decoded log carries a payload.",
+    "bounds": {"quick": "substituted value: null / bool / unbounded integer / 4 non-integer numbers / string of <= 4 symbolic bytes / array of <= 2 such values / object over 2 keys (depth 1; depth 2 for script variables); one corrupted field per request; 6 bulk element kinds, 5 log kinds", "thorough": "depth 2 for bulk elements as well"},
+    "outside": "the HTTP layer: chi router, middlewares, query-string and header parsing, and the mapping of errors to status codes are not encoded (net/http is beyond the executor) — in particular 'the answer is 4xx rather than 5xx' is not decided, only 'an error, not a panic, and no effect'; cursors and filter bodies (covered under C37/C21 where built); two or more corrupted fields at once",
+    "assumptions": COMMON_ASSUME + DBMODEL_ASSUME + ["time.Parse, base64 decoding, strings.ToUpper and strconv.ParseUint of a symbolic string are over-approximated (error, or an arbitrary value)"],
+    "units": [
+        unit("./internal/machine/vm", ["vm/c36.go"], "^Harness_C38_", QT, libs=["jsongen"], flags={"labels": "^(C38:|no-panic)", "max-paths": 200000}, reach=["end"]),
+        unit("./internal/api/v1", ["apiv1/c38.go"], "^Harness_C38_", QT, libs=["jsongen"], flags={"labels": "^(C38:|no-panic)", "max-paths": 200000}, reach=["end"]),
+        unit("./internal", ["core/c38.go"], "^Harness_C38_log_", QT, libs=["jsongen"], flags={"labels": "^(C38:|no-panic)", "max-paths": 200000}, reach=["end"]),
+        unit("./internal/api/bulking", ["bulk/c32.go", "bulk/c38.go"], "^Harness_C38_bulk_(create|revert)", QT, libs=["jsongen"], extra=BULK_EXTRA, flags={"labels": "^(C38:|no-panic)", "max-paths": 400000, "max-decisions": 6000}, reach=["end"]),
+        unit("./internal/api/bulking", ["bulk/c32.go", "bulk/c38.go"], "^Harness_C38_bulk_(add|delete)", QT, libs=["jsongen"], extra=BULK_EXTRA, flags={"labels": "^(C38:|no-panic)", "max-paths": 400000, "max-decisions": 6000}, reach=["end"]),
+    ],
+}
